@@ -60,6 +60,14 @@ def _family(draw, var, others, disjoint):
 def _case(draw):
     op = draw(st.sampled_from(["construct", "contains", "merge", "merge", "le"]))
     if op == "construct":
+        if draw(st.integers(0, 5)) == 0:
+            # two or three slabs / half-spaces across one direction over 3-4 variables: fewer rows than variables in every pair
+            vs = ["a", "b", "c", "d"][:draw(st.integers(3, 4))]
+            d = {v: float(draw(st.sampled_from([1, 1, -1, 2]))) for v in vs}
+            gap = draw(st.sampled_from([1, 1, 0, -1]))
+            lo = float(draw(st.integers(-2, 2)))
+            alts = [[[dict(d), lo]], [[{v: -k for v, k in d.items()}, -(lo + gap)]]]
+            return {"op": op, "alts": alts, "rel": ["halfspaces", {1: "gap", 0: "touch", -1: "overlap"}[gap]], "via": "nested"}
         alts, rel = draw(_family("a", ["b"], disjoint=draw(st.booleans())))
         alts = list(draw(st.permutations(alts)))
         return {"op": op, "alts": alts, "rel": sorted(set(rel)), "via": draw(st.sampled_from(["nested", "contract-constructor", "from_strings"]))}
@@ -104,6 +112,15 @@ def _case(draw):
         if draw(st.booleans()):
             g1, g2 = g2, g1
         rel.append("print-alike-g")
+    elif alike == 2:
+        # guarantee alternatives that agree up to a relative 9e-6 in one coefficient (equal under a tolerance-based comparison)
+        f = 1 + draw(st.sampled_from([9e-6, -9e-6]))
+        hi = float(draw(st.sampled_from([900, 500])))
+        g1 = [[[{"x": 1.0, "a": -1.0}, 0.0], [{"x": 1.0}, hi], [{"x": -1.0}, 0.0]]]
+        g2 = [[[{"x": f, "a": -1.0}, 0.0], [{"x": 1.0}, hi], [{"x": -1.0}, 0.0]]]
+        if draw(st.booleans()):
+            g1, g2 = g2, g1
+        rel.append("near-twin-g")
     elif alike == 1:
         # thin disjoint assumption alternatives that print alike
         base = float(draw(st.sampled_from([100, 200, 500])))
